@@ -32,13 +32,16 @@ func (g *Global) verifyFunc(key string) (res *FuncResult) {
 	tr := newTr(g, fn, key, fc)
 	res.Tr = tr
 	tr.defaultProps = fc.Props
+	for _, r := range fc.Reveal {
+		tr.revealed[r] = true
+	}
 	defer func() {
 		if r := recover(); r != nil {
 			if se, ok := r.(subsetErr); ok {
-				res.Err = fmt.Errorf("%s: %v (at %s)", key, se, tr.posString(0))
+				res.Err = fmt.Errorf("%s: %v (at %s; clause %.200s)", key, se, tr.posString(0), tr.curClause)
 				return
 			}
-			res.Err = fmt.Errorf("%s: internal error: %v (at %s)", key, r, tr.posString(0))
+			res.Err = fmt.Errorf("%s: internal error: %v (at %s) while evaluating %.300s", key, r, tr.posString(0), tr.curClause)
 			res.Stack = string(debug.Stack())
 		}
 	}()
@@ -69,6 +72,9 @@ func (g *Global) verifyFunc(key string) (res *FuncResult) {
 			penv.vars[k] = v
 		}
 		tr.bindResults(penv, fn.Signature, r.val)
+		for _, u := range fc.Uses {
+			tr.applyLemma(penv, r.st, u, nil, "")
+		}
 		if len(fc.Frames) > 0 {
 			mods := g.modsetFor(key, fc, fn)
 			fenv := &CEnv{vars: env.vars, st: tr.oldState, old: tr.oldState, pkg: env.pkg}
